@@ -5,7 +5,8 @@ from . import base
 from .C04 import set_plain
 
 THEOREMS = ['C08_new_key_rejected', 'C08_children_inherit', 'C08_first_stage', 'C08_cmdline_path',
-            'C08_override_sets_exactly_that_path', 'C08_override_mistyped_path_is_an_error']
+            'C08_override_sets_exactly_that_path', 'C08_override_mistyped_path_is_an_error',
+            'C08_notnew_is_update_without_new_paths', 'C08_no_new_path', 'C08_notnew_agrees_with_plain_merge']
 PLAIN = gen.PROFILES['plain']
 
 
@@ -119,6 +120,68 @@ def judge_notnew(case):
         if p and not exists(bp, p) and not any(p[:len(q)] == q for q in allowed_new):
             return dict(texts=texts, reason='a path exists after the merge that did not exist before', path=list(p), result=repr(res))
     return None
+
+
+def strip_tags(n):
+    if n[0] == 'map':
+        return ('map', None, [(k, strip_tags(c)) for k, c in n[2]])
+    if n[0] == 'seq':
+        return ('seq', None, [strip_tags(c) for c in n[2]])
+    return ('sc', None, n[2])
+
+
+def spec_corr(rep, rng, n):
+    """the SPEC of C08_notnew_is_update_without_new_paths against the implementation: tag-free documents followed by one tag-free
+    document marked !notnew at its root; Coq evaluates  do a <- upd_fold d0 rest; upd_nn a overlay  and compares it with what
+    Builder.build returned (the data, or a MergeError).  A disagreement is a concrete failing input of the property."""
+    import yaml as pyyaml
+    from awesomeyaml import errors
+    items, shown = [], []
+    for _ in range(n):
+        docs = [gen.gen_doc(rng, PLAIN, root_tag_ok=False)]
+        for _ in range(rng.choice([0, 0, 1])):
+            docs.append(gen.related_doc(rng, PLAIN, docs[-1]))
+        over = strip_tags(gen.related_doc(rng, PLAIN, docs[-1]))
+        if rng.random() < 0.6:
+            bp = oracles.doc_plain(docs[-1])
+
+            def restrict(nn, b):
+                if nn[0] == 'map' and isinstance(b, dict):
+                    return ('map', None, [(k, restrict(c, b.get(k))) for k, c in nn[2] if k in b or rng.random() < 0.08])
+                if nn[0] == 'seq' and isinstance(b, list) and rng.random() < 0.7:
+                    return ('seq', None, [restrict(c, b[i]) for i, c in enumerate(nn[2]) if i < len(b)])
+                return nn
+            over = restrict(over, bp)
+        texts = [gen.render(d) for d in docs] + [gen.render(('map', '!notnew', over[2]))]
+        try:
+            plain_docs = [pyyaml.load(t, Loader=pyyaml.SafeLoader) for t in texts[:-1]]
+            plain_over = pyyaml.load(gen.render(over), Loader=pyyaml.SafeLoader)
+        except Exception:
+            continue
+        if not all(isinstance(d, dict) for d in plain_docs) or not isinstance(plain_over, dict):
+            continue
+        try:
+            b = mergecorr.parse_stages(texts)
+            got = ('ok', base.to_plain(b.build()))
+        except errors.MergeError:
+            got = ('merge-error', None)
+        except Exception as e:
+            got = ('other:' + type(e).__name__, None)
+        intern = ser.Interner()
+        exp = f'(Some {ser.plain_term(got[1], intern)})' if got[0] == 'ok' else ('None' if got[0] == 'merge-error' else '(Some (PS SNone))')
+        items.append(f'({ser.plain_term(plain_docs[0], intern)}, {ser.coq_list(ser.plain_term(d, intern) for d in plain_docs[1:])}, {ser.plain_term(plain_over, intern)}, {exp})')
+        shown.append(dict(texts=texts, implementation=got[0]))
+        rep.count('notnew spec: implementation ' + got[0].split(':')[0])
+    hdr = 'From AY Require Import Model.Eq Spec.Update Spec.UpdateNN Proofs.MergePlain.\nOpen Scope Z_scope.\n'
+    chk = ('fun c : plain * list plain * plain * option plain => let \'(d0, rest, ov, e) := c in '
+           'match (do a <- upd_fold d0 rest; upd_nn a ov), e with Ok r, Some x => plain_eqb r x | Err _ _, None => true | _, _ => false end')
+    bad, errors_, wall, cmd = common.run_case_files('c08n', hdr, items, chk, shard=200)
+    rep.checker_cmds.append(cmd)
+    rep.oblige(f'T3 correspondence Spec.UpdateNN.upd_nn (after upd_fold) = Builder.build on {len(items)} histories of tag-free documents + one !notnew tag-free overlay (data or MergeError)',
+               not bad and not errors_, (f'{len(bad)} disagreements' if bad else '') + (errors_[0]['log'][-400:] if errors_ else ''))
+    for i in bad[:3]:
+        rep.violation('the implementation differs from the no-new-path update on a !notnew overlay', dict(oracle='upd_nn spec', input=dict(spec=True, **shown[i])))
+    rep.extra.setdefault('correspondence', []).append(dict(label='upd_nn spec', cases=len(items), disagreements=len(bad), coq_wall_s=round(wall, 1)))
 
 
 def render_path(p):
@@ -270,6 +333,7 @@ def run(rep, tier, rng):
     rep.checker_cmds.append(cmd)
     rep.oblige(f'T3 correspondence load_doc (override_doc k ks v) = the parsed document of Config.process_cmdline on {len(oitems)} override paths (all raw flags)', bool(oitems) and not bad and not errors,
                (f'{len(bad)} disagreements' if bad else '') + (errors[0]['log'][-400:] if errors else ''))
+    spec_corr(rep, rng, 300 if tier == 'quick' else 5000)
     nn, cm = [], []
     for _ in range(500 if tier == 'quick' else 8000):
         nn.append(gen_case(rng))
@@ -293,6 +357,9 @@ def replay(data):
     if 'input' in r:
         from ..reparse import parse_doc
         x = r['input']
+        if x.get('spec'):
+            print('replay: the Coq evaluation of upd_nn is part of the check run; texts:', x['texts'], 'implementation gave', x['implementation'])
+            return 1
         if x.get('call'):
             f = judge_call(dict(base=parse_doc(x['base']), newer=parse_doc(x['newer']), creates=x['creates']))
         elif 'newer' in x:
